@@ -860,6 +860,74 @@ impl Fam for EnumsOverPlainNodes {
 	}
 }
 
+#[derive(Serialize, Deserialize, Debug, Clone)]
+pub struct ShortVsFullNames {
+	/// unions in which the full name of one branch is the short name of another, both orders
+	a: PlainOrNamespaced,
+	b: PlainOrNamespaced,
+	/// a fixed in the null namespace and one of the same short name in a namespace
+	c: FxOrNsFx,
+	z: i32,
+}
+#[derive(Serialize, Deserialize, Debug, Clone)]
+pub enum PlainOrNamespaced {
+	#[serde(rename = "R")]
+	Plain(Inner),
+	#[serde(rename = "a.R")]
+	Namespaced(Inner),
+}
+#[derive(Serialize, Deserialize, Debug, Clone)]
+pub enum FxOrNsFx {
+	#[serde(rename = "F")]
+	Plain(#[serde(with = "serde_bytes")] Vec<u8>),
+	#[serde(rename = "b.F")]
+	Namespaced(#[serde(with = "serde_bytes")] Vec<u8>),
+}
+impl Fam for ShortVsFullNames {
+	const NAME: &'static str = "unions in which the full name of one branch is the short name of another";
+	fn schema() -> S {
+		S::record(
+			"ShortVsFullNames",
+			vec![
+				("a", S::Union(vec![inner_schema("R"), inner_schema("a.R")])),
+				("b", S::Union(vec![inner_schema("c.R"), S::Ref("R".into()), S::Null])),
+				("c", S::Union(vec![S::fixed("b.F", 2), S::fixed("F", 2)])),
+				("z", S::Int),
+			],
+		)
+	}
+	fn values() -> Vec<Self> {
+		let inner = |x: i32| Inner { x, y: Some(x % 2 == 0) };
+		let mut out = Vec::new();
+		for k in 0..8 {
+			out.push(ShortVsFullNames {
+				a: if k & 1 == 0 { PlainOrNamespaced::Plain(inner(k)) } else { PlainOrNamespaced::Namespaced(inner(-k)) },
+				b: PlainOrNamespaced::Plain(inner(if k & 2 == 0 { k + 64 } else { -65 })),
+				c: if k & 4 == 0 { FxOrNsFx::Plain(vec![k as u8, 0xff]) } else { FxOrNsFx::Namespaced(vec![0x80, k as u8]) },
+				z: -65,
+			});
+		}
+		out
+	}
+	fn to_r(&self) -> R {
+		R::Record(vec![
+			match &self.a {
+				PlainOrNamespaced::Plain(i) => R::Union(0, Box::new(inner_r(i))),
+				PlainOrNamespaced::Namespaced(i) => R::Union(1, Box::new(inner_r(i))),
+			},
+			match &self.b {
+				// here the namespaced record is `c.R`, which the enum does not name: only the plain one is used
+				PlainOrNamespaced::Plain(i) | PlainOrNamespaced::Namespaced(i) => R::Union(1, Box::new(inner_r(i))),
+			},
+			match &self.c {
+				FxOrNsFx::Plain(b) => R::Union(1, Box::new(R::Fixed(b.clone()))),
+				FxOrNsFx::Namespaced(b) => R::Union(0, Box::new(R::Fixed(b.clone()))),
+			},
+			R::Int(self.z),
+		])
+	}
+}
+
 #[derive(Serialize, Deserialize, Debug, Clone, PartialEq)]
 pub struct Borrowed<'a> {
 	s: &'a str,
@@ -1114,9 +1182,10 @@ pub fn run_all(cover: &mut Cover, out: &mut Vec<Violation>) {
 	run_family::<OptUnions>(cover, out, None);
 	run_family::<IntsAsDecimals>(cover, out, None);
 	run_family::<EnumsOverPlainNodes>(cover, out, None);
+	run_family::<ShortVsFullNames>(cover, out, None);
 	run_borrowed(cover, out);
 	run_length_mismatch(cover, out);
-	cover.count("typed_families", 17);
+	cover.count("typed_families", 18);
 }
 
 pub fn replay(family: &str, idx: usize) -> Vec<Violation> {
@@ -1130,7 +1199,7 @@ pub fn replay(family: &str, idx: usize) -> Vec<Violation> {
 			}
 		)*};
 	}
-	try_fam!(Prim, Floats, Widths, Opts, UnionNewtype, UnionStructVariant, WithEnum, Colls, List, Tree, Logicals, WithNewtypes, Tuples, OptUnions, IntsAsDecimals, EnumsOverPlainNodes);
+	try_fam!(Prim, Floats, Widths, Opts, UnionNewtype, UnionStructVariant, WithEnum, Colls, List, Tree, Logicals, WithNewtypes, Tuples, OptUnions, IntsAsDecimals, EnumsOverPlainNodes, ShortVsFullNames);
 	run_borrowed(&mut cover, &mut out);
 	run_length_mismatch(&mut cover, &mut out);
 	out
